@@ -159,6 +159,16 @@ def eval_quic(case, rng):
             msgs.append(f"{ku} key update(s) were sent but no new key generation was installed")
         else:
             gens = kus[-1]["decs"].get("Application", [])
+            if any(g.get("unobservable") for g in gens):
+                # the decryptor objects no longer expose their keys (refactoring): the generations are observed indirectly - data sent under them is exported exactly
+                from vlib import outparse
+                from checks.c02 import check_quic_output
+                m2, _ = check_quic_output(outparse.Analysis(res.out), qc, ep)
+                out["tags"].append("indirect-key-updates")
+                if m2:
+                    return dict(out, v="inconclusive", msg="key-update generations not observable and the export is not exact (C02 decides): " + m2[0][:200], nontrivial=False)
+                gens = []
+                ku = 0
             if len(gens) < ku + 1:
                 msgs.append(f"{ku} key update(s) sent, {len(gens) - 1} generation(s) installed")
             for g in range(1, min(len(gens), ku + 1)):
